@@ -100,3 +100,111 @@ func vfH_C06_segments(tier int) {
 	vfAssert(vfDeepEqual(m, want), "C06_segments/measurement-has-the-parts")
 	vfReach("C06_segments/ok")
 }
+
+// a quoted value placed inside a statement yields one literal or a parse error:
+// it never ends early and never absorbs or alters the text around it.
+// Here s is ANY string: every ASCII byte including NUL and CR, or an invalid UTF-8 sample.
+var c06BadUTF8 = []string{"\x80", "\xc3", "\xe4\xb8", "\xf0\x9d\x84", "\xc0\xaf", "\xed\xa0\x80", "a\xffb"}
+
+func c06AnyString(tier int) string {
+	if vfChoice(4) == 3 {
+		return c06BadUTF8[vfChoice(len(c06BadUTF8))]
+	}
+	n := vfChoice(3 + tier)
+	b := make([]byte, n)
+	for i := range b {
+		c := vfByte()
+		vfAssume(c < 0x80)
+		b[i] = c
+	}
+	return string(b)
+}
+
+func vfH_C06_embed(tier int) {
+	s := c06AnyString(tier)
+	tmpl := vfChoice(5)
+	var text string
+	switch tmpl {
+	case 0:
+		text = "SELECT a FROM m WHERE k = " + QuoteString(s) + " AND z = 1"
+	case 1:
+		text = "SELECT a FROM " + QuoteIdent(s) + " WHERE z = 1"
+	case 2:
+		text = "CREATE USER " + QuoteIdent(s) + " WITH PASSWORD " + QuoteString(s)
+	case 3:
+		text = "SHOW TAG VALUES WITH KEY = " + QuoteIdent(s)
+	default:
+		text = "SELECT a FROM m WHERE k = " + QuoteString(s) + "; DROP MEASUREMENT x"
+	}
+	vfNote(text)
+	q, err := ParseQuery(text)
+	if err != nil {
+		vfReach("C06_embed/rejected")
+		return
+	}
+	z1 := &BinaryExpr{Op: EQ, LHS: &VarRef{Val: "z"}, RHS: &IntegerLiteral{Val: 1}}
+	sel := func(src *Measurement, cond Expr) Statement {
+		return &SelectStatement{Fields: Fields{{Expr: &VarRef{Val: "a"}}}, Sources: Sources{src}, Condition: cond, IsRawQuery: true}
+	}
+	nStmts := 1
+	if tmpl == 4 {
+		nStmts = 2
+	}
+	vfAssert(len(q.Statements) == nStmts, "C06_embed/the-number-of-statements-is-the-templates")
+	if len(q.Statements) != nStmts {
+		return
+	}
+	got := q.Statements[0]
+	// the expected statement, with whatever single literal the parser put at the placeholder
+	var want Statement
+	switch tmpl {
+	case 0, 4:
+		leaf := ""
+		if g, ok := got.(*SelectStatement); ok {
+			if c, ok := g.Condition.(*BinaryExpr); ok {
+				e := c
+				if tmpl == 0 {
+					if l, ok := c.LHS.(*BinaryExpr); ok {
+						e = l
+					}
+				}
+				if sl, ok := e.RHS.(*StringLiteral); ok {
+					leaf = sl.Val
+				}
+			}
+		}
+		k := &BinaryExpr{Op: EQ, LHS: &VarRef{Val: "k"}, RHS: &StringLiteral{Val: leaf}}
+		if tmpl == 0 {
+			want = sel(&Measurement{Name: "m"}, &BinaryExpr{Op: AND, LHS: k, RHS: z1})
+		} else {
+			want = sel(&Measurement{Name: "m"}, k)
+		}
+	case 1:
+		name := ""
+		if g, ok := got.(*SelectStatement); ok && len(g.Sources) == 1 {
+			if m, ok := g.Sources[0].(*Measurement); ok {
+				name = m.Name
+			}
+		}
+		want = sel(&Measurement{Name: name}, z1)
+	case 2:
+		u, p := "", ""
+		if g, ok := got.(*CreateUserStatement); ok {
+			u, p = g.Name, g.Password
+		}
+		want = &CreateUserStatement{Name: u, Password: p}
+	default:
+		key := ""
+		if g, ok := got.(*ShowTagValuesStatement); ok {
+			if l, ok := g.TagKeyExpr.(*StringLiteral); ok {
+				key = l.Val
+			}
+		}
+		want = &ShowTagValuesStatement{Op: EQ, TagKeyExpr: &StringLiteral{Val: key}}
+	}
+	vfAssert(vfDeepEqual(got, want), "C06_embed/the-statement-around-the-value-is-unchanged")
+	if tmpl == 4 {
+		vfAssert(vfDeepEqual(q.Statements[1], Statement(&DropMeasurementStatement{Name: "x"})), "C06_embed/the-following-statement-is-unchanged")
+	}
+	vfReach("C06_embed/ok")
+}
